@@ -10,3 +10,6 @@ def run(ctx, out):
                         directed=directed.regressions() + directed.batch_orders() + directed.long_ids() + directed.reply_forms() + directed.faulty_caller() + directed.faulty_caller_batched() + directed.orphan_routes() + directed.escaped_ids() + directed.abandoned_requests())
     dcheck.run_more(ctx, out, "C03", "mon_c03_all", n_quick=120, n_thorough=1500,
                     gen_kw=dict(variant="small", ws_share=0.2, single=True), tag="small")
+    # the tree layer every routed value passes through (cJSON_Duplicate, member lookup): real cJSON.c against Cjet.Cjson.TreeOps
+    from vlib import cjsontree_tie
+    cjsontree_tie.run_cjsontree_tie(ctx, out)
